@@ -404,15 +404,14 @@ impl MarkdownEventsReader {
 }
 
 fn line_starts(content: &str) -> Vec<usize> {
+    // a line starts after every "\n", whether or not a "\r" precedes it
     once(0)
         .chain(
             content
-                .lines()
-                .map(|line| line.len() + 1)
-                .scan(0, |start, len| {
-                    *start += len;
-                    Some(*start)
-                }),
+                .bytes()
+                .enumerate()
+                .filter(|(_, byte)| *byte == b'\n')
+                .map(|(index, _)| index + 1),
         )
         .collect()
 }
